@@ -1028,3 +1028,86 @@ fn c05_eof_flush_bol() {
 fn c05_eof_flush_d0() {
     eof_flush_for(0, kani::any());
 }
+
+// ---------------------------------------------------------------------------------------------
+// String-free scanning loops: comments and blanks (bounded by the 7-character stream).
+
+// @ob id=C05.k.lex_comment props=C05,C03 kind=bounded tier=quick timeout=600
+// @bound comments of at most 6 characters (any Unicode scalar values) followed by LF, CR or end of input
+// @clause the text between tokens: a comment is skipped up to, not including, the next line break or the end of input; the position advances by exactly the UTF-8 length of every skipped character (multi-byte characters in comments do not shift later ranges); nothing is emitted in the default configuration
+// @fns Lexer::lex_comment Lexer::lex_and_emit_comment Lexer::next_char
+#[cfg(not(feature = "full-lexer"))]
+#[kani::proof]
+#[kani::unwind(9)]
+fn c05_lex_comment() {
+    let (w, s) = any_stream();
+    let all = [w[0], w[1], w[2], s[0], s[1], s[2], s[3]];
+    kani::assume(w[0] == Some('#'));
+    // the comment ends within the stream
+    let mut end = 7usize;
+    for i in 0..7 {
+        if end == 7 && matches!(all[i], None | Some('\n') | Some('\r')) {
+            end = i;
+        }
+    }
+    kani::assume(end < 7);
+    let start: u32 = kani::any();
+    kani::assume(start <= MAX_START);
+    let mut lxr = ManuallyDrop::new(lexer_at(w, s, start, kani::any(), kani::any()));
+    let r = ManuallyDrop::new(lxr.lex_and_emit_comment());
+    assert!(r.is_ok());
+    let mut bytes = 0u32;
+    for i in 0..7 {
+        if i < end {
+            bytes += all[i].unwrap().len_utf8() as u32;
+        }
+    }
+    assert!(lxr.location.to_u32() == start + bytes);
+    assert!(lxr.window[0] == all[end]);
+    assert!(lxr.pending.is_empty());
+    kani::cover!(end == 6 && bytes > 10);
+    kani::cover!(all[end].is_none());
+}
+
+// @ob id=C05.k.blank_step props=C05,C03 kind=bounded tier=quick timeout=600
+// @bound runs of at most 6 blanks (space, tab, form feed) followed by any character or end of input
+// @clause the text between tokens: a run of spaces, tabs and form feeds inside a line is skipped entirely, the position advances by one byte per blank, nothing is emitted and nothing else is consumed
+// @fns Lexer::consume_character
+#[kani::proof]
+#[kani::unwind(9)]
+#[kani::stub(Lexer::lex_number, lex_number_unreachable)]
+#[kani::stub(Lexer::lex_string, lex_string_unreachable)]
+#[kani::stub(Lexer::lex_and_emit_comment, lex_comment_unreachable)]
+fn c05_blank_step() {
+    let (mut w, s) = any_stream();
+    let first: u8 = kani::any();
+    kani::assume(first < 3);
+    let c0 = if first == 0 { ' ' } else if first == 1 { '\t' } else { '\x0C' };
+    w[0] = Some(c0);
+    let all = [w[0], w[1], w[2], s[0], s[1], s[2], s[3]];
+    let mut end = 7usize;
+    for i in 0..7 {
+        if end == 7 && !matches!(all[i], Some(' ') | Some('\t') | Some('\x0C')) {
+            end = i;
+        }
+    }
+    kani::assume(end < 7);
+    let start: u32 = kani::any();
+    kani::assume(start <= MAX_START);
+    let nesting: usize = kani::any();
+    let bol: bool = kani::any();
+    let mut lxr = ManuallyDrop::new(lexer_at(w, s, start, nesting, bol));
+    // concrete argument so that CBMC resolves the dispatch
+    let r = ManuallyDrop::new(if first == 0 {
+        lxr.consume_character(' ')
+    } else if first == 1 {
+        lxr.consume_character('\t')
+    } else {
+        lxr.consume_character('\x0C')
+    });
+    assert!(r.is_ok());
+    assert!(lxr.location.to_u32() == start + end as u32);
+    assert!(lxr.window[0] == all[end]);
+    assert!(lxr.pending.is_empty() && lxr.nesting == nesting && lxr.at_begin_of_line == bol);
+    kani::cover!(end == 6);
+}
